@@ -531,12 +531,26 @@ class Discharger:
                                 between = blocks_between(mir, d, src[4]) - {src[4]}
                                 if not any(advances(mir, S, b_, cur) for b_ in between):
                                     return "audit: nth(k-1) right after as_slice().get(..k) succeeded on the same cursor (k bytes are available)"
-                    pps = [x for x in sym.walk(n_expr) if x[0] == "call" and x[1].split("::")[-1] in ("parse_partial", "parse_partial_with_options")]
+                    def is_pp(x):
+                            if x[0] != "call":
+                                return False
+                            if x[1].split("::")[-1] in ("parse_partial", "parse_partial_with_options"):
+                                return True
+                            # a workspace helper that returns lexical's parse_partial* of its first argument
+                            hb = next((b_ for b_ in self.unit.bodies if b_.npath in (x[2], x[1]) and b_.kind in ("Fn", "AssocFn")), None)
+                            if hb is not None:
+                                ret = sym.norm(self.S(hb.mir).local(0))
+                                return ret[0] == "call" and ret[1].split("::")[-1] in ("parse_partial", "parse_partial_with_options") and ret[3] and ret[3][0][0] == "arg" and ret[3][0][1] == 1
+                            return False
+                    pps = [x for x in sym.walk(n_expr) if is_pp(x)]
                     for v_ in [x for x in sym.walk(n_expr) if x[0] == "var"]:
                         ds = [sym.norm(d_) for d_ in S.defs_of(v_[1])]
-                        if ds and all(d_[0] == "call" and d_[1].split("::")[-1] in ("parse_partial", "parse_partial_with_options") for d_ in ds):
+                        if ds and all(is_pp(d_) for d_ in ds):
                             pps.extend(ds)
-                    if pps and all(pp[3][0][0] == "call" and pp[3][0][1].endswith("as_slice") and sym.norm(pp[3][0][3][0]) == cur for pp in pps):
+                    def on_cursor(a0):
+                        a0 = self.expand(S, a0)
+                        return a0[0] == "call" and a0[1].endswith("as_slice") and sym.norm(a0[3][0]) == cur
+                    if pps and all(on_cursor(pp[3][0]) for pp in pps):
                         return "audit: nth(len-1) with len returned by lexical parse_partial on the same cursor's slice [trusted: len <= slice length]"
                 # ArrayVec error queue overflow path (R12.5)
                 if s.body.npath.endswith("ErrorQueue>::push_back_error") and "ArrayVec" in (s.body.impl_self or ""):
@@ -654,6 +668,9 @@ class Discharger:
             inner = sym.norm(A.is_len_of(len_atom))
             at = len_atom[4] if len_atom[0] == "call" else None
             roots = [x for x in sym.walk(inner) if x[0] == "var"]
+            if inner[0] == "call" and inner[1].split("::")[-1] in ("as_slice", "as_bytes", "deref", "as_ref") and not any(x[0] == "var" for x in sym.walk(inner)):
+                # the same (single-assignment) call result: an immutable slice value
+                return True
             if any(x[0] == "call" for x in sym.walk(inner)):
                 return False
             if not roots:
